@@ -111,7 +111,7 @@ def _work(check_name, seeds, opts):
     agg = {'runs': 0, 'stats': collections.Counter(),
            'probes': collections.Counter(), 'sigs': set(), 'states': set(),
            'sim_time': 0.0, 'samples': [], 'digests': {}, 'fail': None,
-           'nontrivial': 0, 'harness': None, 'wall': 0.0}
+           'nontrivial': 0, 'harness': None, 'wall': 0.0, 'known': {}}
 
     t0 = real_now()
 
@@ -144,11 +144,23 @@ def _work(check_name, seeds, opts):
             agg['samples'].append({'seed': seed, 'run': res['sample']})
 
         if res['violations']:
-            agg['fail'] = {'seed': seed, 'plan': plan,
-                           'sched': res['sched'],
-                           'violations': res['violations'],
-                           'digest': res['digest']}
-            break
+            known = load_known(mod.ID)
+            fresh = [v for v in res['violations']
+                     if match_known(known, v) is None]
+
+            for v in res['violations']:
+                entry = match_known(known, v)
+
+                if entry is not None:
+                    agg['known'][entry['id']] = \
+                        agg['known'].get(entry['id'], 0) + 1
+
+            if fresh:
+                agg['fail'] = {'seed': seed, 'plan': plan,
+                               'sched': res['sched'],
+                               'violations': fresh,
+                               'digest': res['digest']}
+                break
 
     agg['wall'] = real_now() - t0
     agg['states'] = set(list(agg['states'])[:20000])
@@ -157,8 +169,17 @@ def _work(check_name, seeds, opts):
 
 # -- shrinking ---------------------------------------------------------------------
 
-def _same_class(res, cls):
-    return any(v['cls'] == cls for v in res['violations'])
+def _same_class(res, cls, known=None):
+    """Does `res` still show an *unlisted* violation of class cls?  A
+       candidate that only reproduces a listed known finding is not the
+       same failure."""
+
+    for v in res['violations']:
+        if v['cls'] == cls and (known is None or
+                                match_known(known, v) is None):
+            return True
+
+    return False
 
 
 def _generic_plan_candidates(plan):
@@ -221,7 +242,7 @@ def _generic_plan_candidates(plan):
                     yield cand
 
 
-def shrink(mod, plan, sched, cls, budget_runs=300, budget_s=40):
+def shrink(mod, plan, sched, cls, budget_runs=300, budget_s=40, known=None):
     """Minimise (plan, sched) while a violation of class `cls` persists.
        Returns (plan, sched, result) re-recorded from an actual run."""
 
@@ -243,7 +264,7 @@ def shrink(mod, plan, sched, cls, budget_runs=300, budget_s=40):
         except Exception: # pylint: disable=broad-except
             return None
 
-        return res if _same_class(res, cls) else None
+        return res if _same_class(res, cls, known) else None
 
     best = attempt(plan, sched)
 
@@ -354,7 +375,12 @@ def load_known(prop):
 
 def match_known(known, violation):
     for entry in known:
-        if entry.get('cls') == violation['cls'] and \
+        classes = entry.get('cls')
+
+        if isinstance(classes, str):
+            classes = [classes]
+
+        if violation['cls'] in classes and \
                 entry.get('sig') == violation.get('sig'):
             return entry
 
@@ -447,7 +473,7 @@ def run_batch(check_name, tier, base_seed, budget_s, workers, selftest_n):
     total = {'runs': 0, 'stats': collections.Counter(),
              'probes': collections.Counter(), 'sigs': set(), 'states': set(),
              'sim_time': 0.0, 'samples': [], 'nontrivial': 0,
-             'cpu_wall': 0.0}
+             'cpu_wall': 0.0, 'known': {}}
     digests = {}
     fails = []
     harness = None
@@ -491,6 +517,9 @@ def run_batch(check_name, tier, base_seed, budget_s, workers, selftest_n):
                 total['nontrivial'] += agg['nontrivial']
                 total['cpu_wall'] += agg['wall']
                 digests.update(agg['digests'])
+
+                for kid, n in agg.get('known', {}).items():
+                    total['known'][kid] = total['known'].get(kid, 0) + n
 
                 if len(total['samples']) < 3:
                     total['samples'].extend(agg['samples'][:1])
@@ -539,13 +568,26 @@ def main(argv=None):
         res, body = replay_file(check_name, args.replay)
 
         if res['violations']:
+            known = load_known(body['property'])
+            fresh = 0
+
             for v in res['violations']:
                 print('replayed: class=%s sig=%s %s' %
                       (v['cls'], v.get('sig'), v['detail']))
+                entry = match_known(known, v)
 
-            print('VIOLATION property=%s replay=%s' %
-                  (body['property'], args.replay))
-            return EXIT_VIOLATION
+                if entry is not None:
+                    print('KNOWN-FINDING: property=%s %s' %
+                          (body['property'], entry['what']))
+                else:
+                    fresh += 1
+
+            if fresh:
+                print('VIOLATION property=%s replay=%s' %
+                      (body['property'], args.replay))
+                return EXIT_VIOLATION
+
+            return EXIT_OK
 
         print('replay did not violate')
         return EXIT_OK
@@ -605,7 +647,7 @@ def main(argv=None):
     # violations: shrink, match known findings, write replay files
     known = load_known(mod.ID)
     reported = []
-    known_hit = {}
+    known_hit = {e['id']: e for e in known if total['known'].get(e['id'])}
     seen_sigs = set()
 
     for fail in fails:
@@ -620,13 +662,16 @@ def main(argv=None):
 
         try:
             plan, sched, res, nruns = shrink(mod, fail['plan'], fail['sched'],
-                                             cls)
+                                             cls, known=known)
         except HarnessError as exc:
             print('HARNESS-ERROR check=%s seed=%s %s' %
                   (check_name, fail['seed'], exc))
             return EXIT_HARNESS
 
-        vmin = next(v for v in res['violations'] if v['cls'] == cls)
+        vmin = next((v for v in res['violations']
+                     if v['cls'] == cls and match_known(known, v) is None),
+                    None) or next(v for v in res['violations']
+                                  if v['cls'] == cls)
         entry = match_known(known, vmin)
 
         if entry is not None:
@@ -669,7 +714,8 @@ def main(argv=None):
             'workers': args.workers,
             'real_components': getattr(mod, 'REAL', []),
             'stubbed_components': getattr(mod, 'STUB', []),
-            'known_findings_seen': sorted(known_hit),
+            'known_findings_seen': {k: total['known'].get(k, 0)
+                                    for k in sorted(known_hit)},
         },
         'assumptions': getattr(mod, 'ASSUMPTIONS', []),
         'wall_s': round(wall_total, 2),
